@@ -50,12 +50,15 @@ async function check (leaf, resps, ctx) {
     return res
   }
   const relax = r.parseIn.ast ? X.hasMultiSubstTemplate(norm(r.parseIn.ast)) : false
-  const envs = X.envVariants(code, ctx.tier)
+  let envs = X.envVariants(code, ctx.tier)
+  // quick tier: the context families (B, G, M) take the 7 most discriminating environments, A and C all of them
+  if (ctx.tier !== 'thorough' && leaf.fam !== 'A' && leaf.fam !== 'C') envs = envs.slice(0, 7)
   res.nontrivial = true
   let n = 0
   for (const spec of envs) {
     const a1 = await X.runOne(inCtx, spec)
-    const a2 = await X.runOne(inCtx, spec)
+    // determinism guard: the input is run twice (every environment in the thorough tier, the first two in quick)
+    const a2 = (ctx.tier === 'thorough' || n < 2) ? await X.runOne(inCtx, spec) : a1
     n++
     if (a1.result.startsWith('machinery') || !X.sameObs(a1, a2, false).same) { res.notes = { harness_nondeterministic_or_timeout: 1 }; continue }
     const b = await X.runOne(outCtx, spec)
